@@ -3,4 +3,13 @@ import OLP.Base.Assoc
 import OLP.KV.Model
 import OLP.KV.Spec
 import OLP.KV.Refine
+import OLP.Shell.Model
+import OLP.Shell.Spec
+import OLP.Shell.LemmasA
+import OLP.Shell.LemmasB
+import OLP.Props.C01
+import OLP.Props.C05
+import OLP.Props.C06
+import OLP.Props.C07
+import OLP.Props.C08
 import OLP.Props.C09
